@@ -294,6 +294,26 @@ def r_arg_checks(rule, root=None):
         rule.bad("shape-bulk|lengths", "ShapeBulkEval::eval_raw must reject x/y and x/z length mismatches with an error value", A.where(b))
 
 
+def r_no_early_ok(rule, root=None):
+    """a missing or mis-sized variable is an error for *every* input: no `return Ok(..)` of the shape
+    evaluators sits in front of the loop that binds the variables (an empty batch included)"""
+    t_, b_ = shape_eval_fns(root)
+    for fn, label in ((t_, "tracing"), (b_, "bulk")):
+        ms = [m for m in A.find(fn["body"], "Match") if any("Var::V(" in A.unparse(a["pat"]) for a in m["arms"])]
+        if len(ms) != 1:
+            rule.lost("match var {Var::V ..} in the %s shape evaluator" % label)
+            continue
+        early = []
+        for r in A.find(fn["body"], "Return"):
+            v = A.strip(r.get("e") or {})
+            if v.get("k") == "Call" and A.path_segs(v["func"]) == ["Ok"] and r["ln"] < ms[0]["ln"] and not any(n is r for n in A.walk(ms[0])):
+                early.append(r)
+        if early:
+            rule.bad("%s|early-ok" % label, "the %s shape evaluator returns `%s` before its variables are bound (under `%s`): for that input a missing variable or a mis-sized variable array is silently accepted, unlike every other evaluator" % (label, A.unparse(early[0])[:40], " && ".join(A.enclosing_conds(fn["body"], early[0]) or [])), A.where(fn, early[0]))
+        else:
+            rule.ok("%s shape evaluator: no success return precedes the variable binding" % label, file=SHAPE, line=fn["ln"])
+
+
 def r_shape_scratch(rule, root=None):
     t, b = shape_eval_fns(root)
     calls = A.linear_calls(t)
